@@ -677,7 +677,12 @@ pub fn run_ops(ctx: &Arc<Ctx>, ops: &[Node], thread: usize) {
                 for _ in 0..*n {
                     let v = { let mut s = ctx.sent[*c].lock().unwrap(); let v = (*c as u64) * 1000 + s.len() as u64; s.push(v); v };
                     let tx = ctx.senders[*c].lock().unwrap().clone();
+                    // a send wakes the pipe's producer on this thread: it must return (the wake-up only queues a poll operation)
+                    let target = ctx.pipe_of_chan[*c].lock().unwrap().map(|(o, _, _)| o).unwrap_or(usize::MAX);
+                    let through = ctx.pipe_of_chan[*c].lock().unwrap().map(|(_, t, _)| t).unwrap_or(false);
+                    ctx.status.lock().unwrap().insert(thread, (node.id, if through { "send-pipe" } else { "send-pipein" }, target));
                     if let Some(tx) = tx { rt::emit(&format!("chsend {} {}", c, v)); tx.unbounded_send(v).ok(); }
+                    ctx.status.lock().unwrap().remove(&thread);
                 }
             }
             Op::CloseCh(c) => {
@@ -1027,6 +1032,8 @@ pub fn classify_deadlock(ctx: &Arc<Ctx>) -> Failure {
             "next" => { add("C12"); }
             "dropout" => { add("C16"); }
             "pipe" | "pipein" => { add("C11"); add("C04"); }
+            "send-pipein" => { add("C11"); }
+            "send-pipe" => { add("C12"); }
             "desync" | "fdesync" | "after" | "fsync" | "trysync" | "suspend" => { add("C03"); if *kind == "trysync" { add("C09"); } }
             _ => {}
         }
